@@ -55,7 +55,7 @@ def generate(rng, tier, index):
 
     def gen_targets():
         mode = rate_mode if rate_mode != "mixed" else rng.choice(["none", "low", "high", "all_but_one", "per_task"])
-        return {"op": "set_targets", "seed": rng.randrange(1 << 30), "mode": mode, "rate": {"none": 0.0, "low": 0.2, "high": 0.6}.get(mode, 0.4)}
+        return {"op": "set_targets", "seed": rng.randrange(1 << 30), "mode": mode, "rate": {"none": 0.0, "low": 0.2, "high": 0.6}.get(mode, 0.4), "strict": rng.random() < 0.5}
 
     def gen_predict(policy=None):
         policy = policy or rng.choice(["mask", "mask", "fill"])
@@ -242,7 +242,7 @@ def execute(history):
             nans = int(torch.isnan(y).sum())
             if k == "set_targets":
                 y = make_nan_targets(recipe, op, M)
-                M.set_train_data(targets=y, strict=False)
+                M.set_train_data(targets=y, strict=bool(op.get("strict", False)))  # same shape/dtype: strict is legal
                 out.stats["fault:observations_lost"] += int(torch.isnan(y).sum())
                 out.stats["fault:target_streams_with_loss"] += int(bool(torch.isnan(y).any()))
                 policies_since_reset = []
